@@ -1132,3 +1132,116 @@ def gen_filter():
 
 
 MODULES["Filter"] = gen_filter
+
+
+# ------------------------------------------------------------------ multi-TAN mosaics (C09)
+class IntTr(RatTr2):
+    """integer-valued arithmetic: `int(np.floor(e))`, `int(np.ceil(e))`, `int(e)` are the identity on integers"""
+
+    def expr(self, e, want="Int"):
+        if isinstance(e, ast.Call) and ast.unparse(e.func) == "int" and len(e.args) == 1:
+            inner = e.args[0]
+            if isinstance(inner, ast.Call) and ast.unparse(inner.func) in ("np.floor", "np.ceil"):
+                inner = inner.args[0]
+            a, t = self.expr(inner)
+            if t != "Int":
+                raise ExtractError("non-integer under int()")
+            return a, "Int"
+        return super().expr(e, want)
+
+
+def gen_multitan():
+    tree = parse("toasty/multi_tan.py")
+    out = HEADER.format(src="toasty/multi_tan.py") + (
+        "/-! Reference-pixel offsets are integers here: the inputs share one pixel grid (`MATCH_HEADERS` are compared for equality by the code),\n"
+        "so `int(np.floor(·))`, `int(np.ceil(·))` and `int(·)` are the identity. `c1`, `c2` stand for `CRPIX1 − 1`, `CRPIX2 − 1`. -/\n\nnamespace Gen\nnamespace MultiTan\n\n")
+    fn = find_def(tree, "MultiTanProcessor.compute_global_pixelization")
+    loops = [s for s in fn.body if isinstance(s, ast.For)]
+    if len(loops) != 2 or ast.unparse(loops[0].iter) != "self._collection.descriptions()" or ast.unparse(loops[1].iter) != "self._descs":
+        raise ExtractError("compute_global_pixelization: loops not recognised")
+    l1 = loops[0].body
+    src1 = [ast.unparse(s) for s in l1]
+    need = ["desc.ensure_negative_parity()", "this_crpix1 = header['CRPIX1'] - 1", "this_crpix2 = header['CRPIX2'] - 1", "mtdesc.in_shape = desc.shape", "self._descs.append(mtdesc)"]
+    for n in need:
+        if n not in src1:
+            raise ExtractError(f"compute_global_pixelization: statement `{n}` not found")
+    tr = IntTr(alias={"desc.shape[1]": "w", "desc.shape[0]": "h"})
+    tr.ty = {"this_crpix1": "Int", "this_crpix2": "Int", "w": "Int", "h": "Int"}
+    ext = {}
+    for s in l1:
+        if isinstance(s, ast.Assign) and ast.unparse(s.targets[0]) in ("mtdesc.crxmin", "mtdesc.crxmax", "mtdesc.crymin", "mtdesc.crymax"):
+            ext[ast.unparse(s.targets[0]).split(".")[1]] = tr.expr(s.value)[0]
+    if set(ext) != {"crxmin", "crxmax", "crymin", "crymax"}:
+        raise ExtractError("compute_global_pixelization: extent assignments not recognised")
+    out += "/-- extent of one input relative to its reference pixel: (crxmin, crxmax, crymin, crymax) -/\n"
+    out += f"def extent (this_crpix1 this_crpix2 w h : Int) : Int × Int × Int × Int :=\n  ({ext['crxmin']}, {ext['crxmax']}, {ext['crymin']}, {ext['crymax']})\n\n"
+    acc = [s for s in l1 if isinstance(s, ast.If) and ast.unparse(s.test) == "global_crxmin is None"]
+    if len(acc) != 1:
+        raise ExtractError("compute_global_pixelization: accumulation not recognised")
+    first = [ast.unparse(s) for s in acc[0].body]
+    rest = [ast.unparse(s) for s in acc[0].orelse]
+    if first != ["global_crxmin = mtdesc.crxmin", "global_crxmax = mtdesc.crxmax", "global_crymin = mtdesc.crymin", "global_crymax = mtdesc.crymax"]:
+        raise ExtractError("compute_global_pixelization: initial bounds not recognised")
+    want_rest = ["global_crxmin = min(global_crxmin, mtdesc.crxmin)", "global_crxmax = max(global_crxmax, mtdesc.crxmax)",
+                 "global_crymin = min(global_crymin, mtdesc.crymin)", "global_crymax = max(global_crymax, mtdesc.crymax)"]
+    if rest != want_rest:
+        bad = [a for a, b in zip(rest, want_rest) if a != b]
+        raise ExtractError(f"compute_global_pixelization: running bounds not recognised: {bad[:1]}")
+    out += ("/-- the running bounds: the first input initialises them, every later one extends them by\n"
+            "`min(global_crxmin, crxmin)`, `max(global_crxmax, crxmax)`, `min(global_crymin, crymin)`, `max(global_crymax, crymax)` -/\n"
+            "def bounds_are_running_min_max : Bool := true\n\n")
+    mid = [ast.unparse(s) for s in fn.body]
+    for n in ["width = int(global_crxmax - global_crxmin) + 1", "height = int(global_crymax - global_crymin) + 1", "self._tiling = StudyTiling(width, height)",
+              "ref_headers['CRPIX1'] = this_crpix1 + 1 + (mtdesc.crxmin - global_crxmin)", "ref_headers['CRPIX2'] = this_crpix2 + 1 + (mtdesc.crymin - global_crymin)",
+              "self._tiling.apply_to_imageset(builder.imgset)", "builder.apply_wcs_info(wcs, width, height)"]:
+        if n not in mid:
+            raise ExtractError(f"compute_global_pixelization: statement `{n}` not found")
+    out += "/-- mosaic size and the reference pixel written to the data set's WCS (from the *last* input's values) -/\n"
+    out += "def mosaic_size (gxmin gxmax gymin gymax : Int) : Int × Int := ((gxmax - gxmin) + 1, (gymax - gymin) + 1)\n"
+    out += "def global_crpix (this_crpix1 this_crpix2 crxmin crymin gxmin gymin : Int) : Int × Int :=\n  (this_crpix1 + 1 + (crxmin - gxmin), this_crpix2 + 1 + (crymin - gymin))\n\n"
+    l2 = [ast.unparse(s) for s in loops[1].body]
+    want2 = ["desc.imin = int(np.floor(desc.crxmin - global_crxmin))", "desc.imax = int(np.ceil(desc.crxmax - global_crxmin))",
+             "desc.jmin = int(np.floor(desc.crymin - global_crymin))", "desc.jmax = int(np.ceil(desc.crymax - global_crymin))"]
+    if l2[:4] != want2:
+        raise ExtractError("compute_global_pixelization: placement of the inputs not recognised")
+    if "desc.sub_tiling = self._tiling.compute_for_subimage(desc.imin, desc.jmin, desc.imax + 1 - desc.imin, desc.jmax + 1 - desc.jmin)" not in l2:
+        raise ExtractError("compute_global_pixelization: sub-tiling call not recognised")
+    out += ("/-- placement of an input in the mosaic: `compute_for_subimage(imin, jmin, imax + 1 − imin, jmax + 1 − jmin)` -/\n"
+            "def placement (crxmin crxmax crymin crymax gxmin gymin : Int) : Int × Int × Int × Int :=\n"
+            "  let imin := crxmin - gxmin\n  let imax := crxmax - gxmin\n  let jmin := crymin - gymin\n  let jmax := crymax - gymin\n"
+            "  (imin, jmin, imax + 1 - imin, jmax + 1 - jmin)\n\n")
+    # ---- the per-rectangle work, serial and worker
+    def rect_body(fn_name):
+        f = find_def(tree, fn_name)
+        fors = [n for n in ast.walk(f) if isinstance(n, ast.For) and ast.unparse(n.iter) == "desc.sub_tiling.generate_populated_positions()"]
+        if len(fors) != 1:
+            raise ExtractError(f"{fn_name}: rectangle loop not recognised")
+        tgt = ast.unparse(fors[0].target).strip("()")
+        if tgt != "pos, width, height, image_x, image_y, tile_x, tile_y":
+            raise ExtractError(f"{fn_name}: loop variables {tgt}")
+        body = [ast.unparse(s) for s in fors[0].body if not (isinstance(s, ast.Expr) and "progress.update" in ast.unparse(s))]
+        parity = any(ast.unparse(n) == "if image.get_parity_sign() != tile_parity_sign:\n    image.flip_parity()" for n in ast.walk(f) if isinstance(n, ast.If))
+        return body, parity
+    b1, p1 = rect_body("MultiTanProcessor._tile_serial")
+    b2, p2 = rect_body("_mp_tile_worker")
+    want_b = ["if tile_parity_sign == 1:\n    image_y = image.height - (image_y + height)\n    tile_y = 256 - (tile_y + height)",
+              "ix_idx = slice(image_x, image_x + width)", "bx_idx = slice(tile_x, tile_x + width)", "iy_idx = slice(image_y, image_y + height)", "by_idx = slice(tile_y, tile_y + height)",
+              "with pio.update_image(pos, masked_mode=image.mode, default='masked') as basis:\n    image.update_into_maskable_buffer(basis, iy_idx, ix_idx, by_idx, bx_idx)"]
+    if b1 != want_b or b2 != want_b or not (p1 and p2):
+        which = "serial" if b1 != want_b or not p1 else "worker"
+        raise ExtractError(f"multi_tan {which} rectangle loop not in the recognised shape")
+    out += ("/-- both the serial loop and the worker: the image is brought to the tiles' parity, then for every rectangle of the input's sub-tiling\n"
+            "the rows are re-addressed for bottom-up tiles and the rectangle is merged into the tile under `update_image(default='masked')` -/\n"
+            "def rect_loop_shape_ok : Bool := true\n")
+    out += "/-- bottom-up tiles: first image row and first tile row of the rectangle -/\n"
+    out += "def flip_image_y (image_height image_y height : Int) : Int := image_height - (image_y + height)\n"
+    out += "def flip_tile_y (tile_y height : Int) : Int := 256 - (tile_y + height)\n\n"
+    tl = find_def(tree, "MultiTanProcessor.tile")
+    tsrc = [ast.unparse(s) for s in tl.body]
+    clean = tsrc[-1] == "pio.clean_lockfiles(self._tiling._tile_levels)"
+    out += f"/-- `tile` ends by removing the lock files of the level that was written -/\ndef cleans_lockfiles : Bool := {'true' if clean else 'false'}\n"
+    out += "\nend MultiTan\nend Gen\n"
+    return out
+
+
+MODULES["MultiTan"] = gen_multitan
